@@ -198,11 +198,28 @@ def _verify_path(e, forced=None):
         except Exception:
             first = False
 
+    d0 = None
+    if forced == "history2":
+        # an earlier verification on ANOTHER key object (any key, e.g. the negated point, which shares the x coordinate) of any
+        # signature under any digest: state kept at module / class level must not leak into the answer below
+        e.grp.injective_x = True      # X(a) == X(b) only for a == +-b: another key with the same x is the negated key
+        z0 = SI.var("z0", 0, (1 << 256) - 1)
+        d0 = SI.var("d0", 1, N - 1)
+        sig0 = _Sig(SI.var("r0", -B, B), SI.var("s0", -B, B))
+        core.assume(d0 != d)          # (the same key: O3-verify-history)
+        pt0 = e.Point(d=d0)
+        try:
+            first = bool(pt0.verify(z0, sig0))
+        except Exception:
+            first = False
+
     def wit(env):
         w = {"d": env["d"], "z": env["z"], "r": env["r"], "s": env["s"]}
         if z0 is not None:
             w["z0"] = env["z0"]
             w["first"] = first
+        if d0 is not None:
+            w.update({"d0": env["d0"], "r0": env["r0"], "s0": env["s0"]})
         return w
     try:
         got = pt.verify(z, sigobj)
@@ -242,6 +259,14 @@ def ob_verify_history():
     return r
 
 
+def ob_verify_history2():
+    r = sym_run(lambda: _verify_path(forced="history2"), mode="int", timeout_ms=60000, max_violations=6)
+    if "(True, False, False)" not in r["classes"] or "(False, True, True)" not in r["classes"]:
+        r["inconclusive"].append("reachability twin: accepted-then-rejected or rejected-then-accepted history missing")
+    r["sample"] = {"history": "verify(z0, sig0) on another key object d0*G, then verify(z, sig) on d*G", "d0,z0,r0,s0,d,z,r,s": "symbolic"}
+    return r
+
+
 def ref_verify(pub, z, r, s):
     """reference ECDSA verification (SEC 1 v2 4.1.4) on the real curve arithmetic, independent of S256Point.verify"""
     from buidl import pecc
@@ -252,6 +277,34 @@ def ref_verify(pub, z, r, s):
     if tot.x is None:
         return False
     return tot.x.num % N == r
+
+
+def _replay_verify_history2(pk, w):
+    """two key objects: a genuine signature by d0 on z0 is verified under d0*G (when the model's first call accepted; otherwise a
+    genuine signature by d on z is first offered under d0*G), then the same (digest, r, s) and the model's digest are asked of d*G"""
+    from buidl import pecc
+    d, z, z0, d0 = w["d"], w["z"] % (1 << 256), w["z0"] % (1 << 256), w["d0"]
+    pk0 = pecc.PrivateKey(d0)
+    hist = []
+    for signer, zs in ((pk0, z0), (pk, z)):
+        sig = signer.sign(zs)
+        for (da, za), zb in (((d0, z0), z), ((d0, z0), z0), ((d0, zs), zs), ((d0, zs), zs ^ 1)):
+            pa = pecc.S256Point.parse(pecc.PrivateKey(da).point.sec())
+            pb = pecc.S256Point.parse(pk.point.sec())
+            try:
+                a = bool(pa.verify(za, pecc.Signature(sig.r, sig.s)))
+            except Exception:
+                a = False
+            try:
+                got = bool(pb.verify(zb, pecc.Signature(sig.r, sig.s)))
+            except Exception:
+                got = False
+            want = ref_verify(pb, zb, sig.r, sig.s)
+            hist.append((a, got, want))
+            if got != want:
+                return {"violated": True, "observed": f"verify(z0={za:#x}, sig) on the key d0={da:#x} answered {a}; then verify(z={zb:#x}, same r, s) on the key "
+                                                      f"d={d:#x} answered {got}; specification = {want} (r={sig.r:#x}, s={sig.s:#x})"}
+    return {"violated": False, "observed": f"histories agree with the specification: {hist}"}
 
 
 def _replay_verify_history(pk, w):
@@ -293,6 +346,8 @@ def replay_verify(w):
     from buidl import pecc
     d, z, r, s = w["d"], w["z"], w["r"], w["s"]
     pk = pecc.PrivateKey(d)
+    if "d0" in w:
+        return _replay_verify_history2(pk, w)
     if "z0" in w:
         return _replay_verify_history(pk, w)
     sig = pk.sign(z % (1 << 256))
@@ -522,7 +577,8 @@ def obligations(tier):
            Ob("O1-sign-lowS-complete", ob_sign, replay="sign"),
            Ob("O2-rfc6979", ob_rfc6979, {"draws": 3 if q else 5}, replay="rfc6979"),
            Ob("O3-verify-spec", ob_verify, replay="verify"),
-           Ob("O3-verify-history", ob_verify_history, replay="verify")]
+           Ob("O3-verify-history", ob_verify_history, replay="verify"),
+           Ob("O3-verify-history-other-key", ob_verify_history2, replay="verify", budget_s=900)]
     sizes = [32, 31, 30, 29] if q else list(range(32, 0, -1))
     for i in range(0, len(sizes), 4):
         obs.append(Ob("O4-der", ob_der, {"sizes": tuple(sizes[i:i + 4])}, replay="der"))
